@@ -54,18 +54,21 @@ fn take__partitions_on_char_boundary() {
             assert!(chars == want, "exactly the requested number of characters");
             kani::cover!(span.len() > want, "multi-byte characters taken whole");
         }
-        Err(e) => {
-            assert!(want > 3);
-            std::mem::forget(e);
+        Err((kind, at)) => {
+            assert!(want > 3, "an error only when the input is too short");
+            assert!(is_suffix_at(input, at, 0));
+            kani::cover!(true, "too short");
+            std::mem::forget(kind);
         }
     }
 }
 
 /// take_while(input, _, is 'a'): the maximal prefix of 'a's, or an error when empty.
+/// (3 items: no result in 300 s; 2 items.)
 #[kani::proof]
-#[kani::unwind(8)]
+#[kani::unwind(6)]
 fn take_while__maximal_prefix() {
-    let (buf, n) = items::<3>();
+    let (buf, n) = items::<2>();
     let input = unsafe { std::str::from_utf8_unchecked(&buf[..n]) };
     let mut k = 0;
     while k < n && buf[k] == b'a' {
@@ -74,9 +77,12 @@ fn take_while__maximal_prefix() {
     match take_while(input, "a", |c| c == 'a') {
         Ok((span, rest)) => {
             assert!(k > 0 && span.len() == k && std::ptr::eq(span.as_ptr(), input.as_ptr()) && is_suffix_at(input, rest, k));
+            kani::cover!(k == 1 && n == 3, "stops in front of a multi-byte character");
         }
-        Err((_, at)) => {
+        Err((kind, at)) => {
             assert!(k == 0 && is_suffix_at(input, at, 0));
+            kani::cover!(n == 0, "empty input");
+            std::mem::forget(kind);
         }
     }
 }
@@ -92,4 +98,28 @@ fn span__prefix_before_suffix() {
     let rest = &input[at..];
     let sp = span(input, rest);
     assert!(sp.len() == at && std::ptr::eq(sp.as_ptr(), input.as_ptr()));
+    kani::cover!(at == 2 && n > 2 && buf[0] == 0xc3, "prefix is one multi-byte character");
+    kani::cover!(at == n, "empty suffix");
+}
+
+/// expect(input, "a\u{e9}"): Ok(rest) exactly when the input starts with those 3 bytes,
+/// rest being the input after them; otherwise Err located at the input.
+#[kani::proof]
+#[kani::unwind(8)]
+fn expect__strips_exactly_the_prefix() {
+    let (buf, n) = items::<3>();
+    let input = unsafe { std::str::from_utf8_unchecked(&buf[..n]) };
+    let starts = n >= 3 && buf[0] == b'a' && buf[1] == 0xc3 && buf[2] == 0xa9;
+    match expect(input, "a\u{e9}") {
+        Ok(rest) => {
+            assert!(starts && is_suffix_at(input, rest, 3));
+            kani::cover!(rest.len() == 2, "a multi-byte character follows the prefix");
+        }
+        Err((kind, at)) => {
+            assert!(!starts && is_suffix_at(input, at, 0));
+            assert!(matches!(&kind, LexErrorKind::ExpectedLiteral(_)));
+            kani::cover!(n >= 3, "long enough but different");
+            std::mem::forget(kind);
+        }
+    }
 }
